@@ -278,9 +278,15 @@ def run_real_oob(case, acc):
     ct.start()
     ct.join(8)
     acc.count2('oracle', 'real_urgent_data_runs')
-    if ct.is_alive():
+
+    def where_is_it():
         fr = sys._current_frames().get(ct.ident)
-        where = [(os.path.basename(f.filename), f.name) for f in traceback.extract_stack(fr)] if fr is not None else []
+        return [(os.path.basename(f.filename), f.name) for f in traceback.extract_stack(fr)] if fr is not None else []
+    if ct.is_alive() and where_is_it()[-1:] != [('session.py', '_recv')]:
+        # merely slow (a loaded machine): give it time before calling the run inconclusive
+        ct.join(40)
+    if ct.is_alive():
+        where = where_is_it()
         stuck = bool(where) and where[-1] == ('session.py', '_recv')
         done.set()
         ct.join(10)
